@@ -184,6 +184,7 @@ func scanPackage(p *packages.Package, short string, facts *Facts) {
 			isInit := fd.Name.Name == "init" && fd.Recv == nil
 			// local pointer variables that only ever point to objects created in this function
 			fresh := freshPointers(fd, info)
+			freshSl := freshSlices(fd, info)
 			recordWrite := func(lhs ast.Expr, at token.Pos) {
 				id, through := rootIdent(lhs)
 				if id == nil {
@@ -205,6 +206,17 @@ func scanPackage(p *packages.Package, short string, facts *Facts) {
 				}
 				if _, plain := lhs.(*ast.Ident); plain {
 					return // assignment to a local variable itself
+				}
+				// element write `x[i] = v` into a slice of AST nodes that is a parameter or may alias one (not provably fresh)
+				if ix, ok := lhs.(*ast.IndexExpr); ok {
+					if bid, ok := ix.X.(*ast.Ident); ok {
+						if bv, ok := info.ObjectOf(bid).(*types.Var); ok {
+							if t := info.TypeOf(ix.X); t != nil && sliceOfAST(t) && !freshSl[bv] {
+								facts.ASTWrites = append(facts.ASTWrites, Site{Pos: pos(at), Func: fn, What: exprString(lhs), Kind: "element-of-shared-slice"})
+								return
+							}
+						}
+					}
 				}
 				// a field / element write: does the written object belong to an ast struct?
 				baseT := baseStructType(info, lhs)
